@@ -96,7 +96,7 @@ func FromString[T fixed.Dx](str string) (Int[T], error) {
 	fraction := new(big.Int)
 	var t T
 	switch parts[0] {
-	case "":
+	case "", "+":
 	case "-", "-0":
 		neg = true
 	default:
